@@ -445,6 +445,15 @@ class TSPkoptEnv(ImprovementEnvBase):
             == solution.data.sort(1)[0]
         ).all(), "Not visiting all nodes"
 
+        # the successor array must be ONE cycle through all nodes (a permutation can also be several disjoint cycles)
+        arange = torch.arange(batch_size, device=solution.device)
+        cur = torch.zeros(batch_size, dtype=torch.long, device=solution.device)
+        reached = torch.zeros_like(solution, dtype=torch.bool)
+        for _ in range(graph_size):
+            reached[arange, cur] = True
+            cur = solution[arange, cur]
+        assert reached.all(), "Not a single tour"
+
     def get_mask(self, td):
         # return mask that is 1 if the corresponding action is feasible, 0 otherwise
         visited_time = td["visited_time"]
